@@ -41,6 +41,11 @@ def gen_history(rnd, pool, maxlen):
         st = {"job": j, "churn": rnd.randrange(1 << 30)}
         if pool[j]["k"] == "compile":
             st["compiler"] = rnd.randrange(ncomp) if rnd.random() < 0.6 else None
+            if pool[j].get("libs") and rnd.random() < 0.4:
+                # an imported file is missing for one compilation (it fails), then it is there again: the next compilation on the
+                # same compiler object has to give what a fresh process gives
+                st["compiler"] = st["compiler"] if st["compiler"] is not None else 0
+                steps.append({"job": j, "churn": rnd.randrange(1 << 30), "compiler": st["compiler"], "hide": rnd.choice(pool[j]["libs"])})
             if pool[j].get("provider") is not None and rnd.random() < 0.7:
                 # first the program that defines the macros, then, on the same compiler object, the one that only calls them
                 st["compiler"] = st["compiler"] if st["compiler"] is not None else 0
@@ -91,6 +96,20 @@ class Runner:
                 else:
                     self.shared[st["job"]] = hist.build_input(job)
                 objs = self.shared[st["job"]]
+            if st.get("hide"):
+                import os
+                hidden = st["hide"] + ".hidden"
+                try:
+                    os.rename(st["hide"], hidden)
+                except OSError:
+                    hidden = None
+                try:
+                    hist.compute(job, compiler=comp, objs=objs)
+                finally:
+                    if hidden:
+                        os.rename(hidden, st["hide"])
+                acc.count("calls_with_an_imported_file_missing")
+                continue
             res = hist.compute(job, compiler=comp, objs=objs)
             acc.count("calls_observed")
             acc.count("calls:" + job["k"])
